@@ -1178,6 +1178,13 @@ func genSizes(c *ctx, emit func(string)) {
 			emit(fmt.Sprintf("#bigmid %x", sz))
 		}
 	}
+	// the FIRST batch of a fresh segment is larger than the 64 KiB commit buffer, its write or
+	// fsync fails once, the caller retries the same batch (implementation only)
+	for _, k := range []string{"s", "w"} {
+		emit("#bigretry " + k + " 3 1400") // 3 x 40 KiB (sizes are hex, in units of 8 bytes)
+		emit("#bigretry " + k + " 9 600")  // 9 x 12 KiB
+		emit("#bigretry " + k + " 3 1e78") // 3 x 62400 bytes
+	}
 	// many reads of zero-length and tiny entries through the pooled read buffer (implementation only)
 	emit("#zeroreads 3000")
 	// WAL level (every tier, ~7 s): payloads whose ENCODING crosses the limit, and a batch
@@ -1331,6 +1338,9 @@ func execSizes(c *ctx, line string) string {
 	}
 	if strings.HasPrefix(line, "#zeroreads") {
 		return execZeroReads(c, line)
+	}
+	if strings.HasPrefix(line, "#bigretry") {
+		return execBigRetry(c, line)
 	}
 	if strings.HasPrefix(line, "#big") {
 		return execBig(c, line)
@@ -1495,5 +1505,83 @@ func execBig(c *ctx, line string) (obs string) {
 		}
 		return "fail"
 	}
+	return "ok"
+}
+
+// execBigRetry: `#bigretry <s|w> <n> <size/8>`: a fresh segment; the first batch has n entries of
+// size bytes each, more than the writer's 64 KiB commit buffer in total; its fsync (s) or write
+// (w) fails once; the caller appends the same batch again, which succeeds and is acknowledged.
+// The entries must read back through the tail reader, and after RecoverTail of the same file
+// (a restart) the file header must still be valid and the batch recovered.
+func execBigRetry(c *ctx, line string) (obs string) {
+	defer func() {
+		if e := recover(); e != nil {
+			obs = "panic"
+			c.witness("C15", "big-panic", fmt.Sprintf("segment code panics on a retried large first batch: %v", e), line)
+		}
+	}()
+	f := strings.Split(line, " ")
+	n, size := int(parseU(f[2])), int(parseU(f[3]))*8
+	info := types.SegmentInfo{ID: 3, BaseIndex: 10, MinIndex: 10, Codec: 1, SizeLimit: 1 << 20}
+	vfs := newMemFS()
+	filer := segment.NewFiler("d", vfs)
+	sw, err := filer.Create(info)
+	if err != nil {
+		return "badinput"
+	}
+	var es []types.LogEntry
+	for i := 0; i < n; i++ {
+		d := make([]byte, size)
+		for j := range d {
+			d[j] = byte(j*7 + i)
+		}
+		es = append(es, types.LogEntry{Index: 10 + uint64(i), Data: d})
+	}
+	if f[1] == "s" {
+		vfs.failSync = true
+	} else {
+		vfs.failWrite = true
+	}
+	if err := sw.Append(es); err == nil {
+		c.witness("C10", "acked-entry-lost-after-io-error", "Append returned nil although its write/fsync failed", line)
+		return "fail"
+	}
+	if err := sw.Append(es); err != nil {
+		c.witness("C15", "max-refused", fmt.Sprintf("the retried batch is refused: %v", err), line)
+		return "fail"
+	}
+	check := func(rd types.SegmentReader, what string) bool {
+		for _, e := range es {
+			pb, gerr := rd.GetLog(e.Index)
+			if gerr != nil || !bytes.Equal(pb.Bs, e.Data) {
+				msg := fmt.Sprintf("entry %d (%d bytes) of a batch acknowledged on its second attempt is unreadable through the %s: %v", e.Index, len(e.Data), what, gerr)
+				c.witness("C15", "acked-unreadable", msg, line)
+				c.witness("C10", "acked-entry-lost-after-io-error", msg, line)
+				return false
+			}
+			pb.Close()
+		}
+		return true
+	}
+	if !check(sw, "tail reader") {
+		return "fail"
+	}
+	sw.Close()
+	sw2, err := filer.RecoverTail(info)
+	if err != nil {
+		msg := fmt.Sprintf("RecoverTail after a retried large first batch fails: %v", err)
+		c.witness("C15", "acked-unreadable", msg, line)
+		c.witness("C10", "acked-entry-lost-after-io-error", msg, line)
+		return "fail"
+	}
+	if sw2.LastIndex() != es[len(es)-1].Index || !check(sw2, "recovered tail") {
+		if sw2.LastIndex() != es[len(es)-1].Index {
+			msg := fmt.Sprintf("after recovery LastIndex = %d, the acknowledged batch ends at %d", sw2.LastIndex(), es[len(es)-1].Index)
+			c.witness("C15", "acked-unreadable", msg, line)
+			c.witness("C10", "acked-entry-lost-after-io-error", msg, line)
+		}
+		return "fail"
+	}
+	c.stat("bigretry_cases")
 	return "ok"
 }
